@@ -1604,6 +1604,14 @@ Definition set_header_list (added : list header) (k v : bytes) : res (list heade
 (* src/parser.rs works on what httparse returns: the outcome of parse() and the fields of the Response / Request it filled in.
    The http builder keeps version, status (or method) and the fields added so far; body(()) fails on a name it does not accept
    (Parser.builder_ok) and otherwise yields the model's response with the HeaderMap of those fields. *)
+(* a store into a fixed-size array: index out of bounds panics *)
+Fixpoint list_set {T : Type} (l : list T) (i : N) (v : T) : list T :=
+  match l with
+  | nil => nil
+  | x :: t => if i =? 0 then v :: t else x :: list_set t (N.pred i) v
+  end.
+Definition array_set {T : Type} (arr : list T) (i : N) (v : T) : res (list T * unit) :=
+  if i <? len arr then Ok (list_set arr i v, tt) else Panic "index out of bounds".
 Definition opt_bytes_eqb (a b : option bytes) : bool :=
   match a, b with Some x, Some y => beq_bytes x y | None, None => true | _, _ => false end.
 (* Writer::try_write runs a closure on the cursor: the closure is a function of the position *)
@@ -2002,6 +2010,18 @@ FLOWFUNCS = [
          params=[("host_of_prev", "val", "option bytes", None), ("host_of_next", "val", "option bytes", None),
                  ("scheme_of_prev", "val", "option bytes", None), ("scheme_of_next", "val", "option bytes", None)],
          opt_bytes_vars=["host_prev", "host_next", "scheme_prev", "scheme_next"], paths={"Scheme::HTTPS": '(s2b "https")'}, rust_ret="bool"),
+    # src/util.rs: the fixed-capacity vector behind the close reasons, the added headers and the suppression list.  len and arr are the
+    # two fields; an element is stored by index (a store beyond the array panics: array_set), the visible part is arr[..len].
+    dict(coq="gen_arrayvec_push", file="src/util.rs", impl=r"impl<T, const N: usize>\s+ArrayVec<T, N>", rust="push",
+         subst=[(r"self\.arr\[(.*?)\] = value;", r"array_set(&mut arr, \1, value)?;"), (r"self\.len", "len")],
+         params=[("T", "val", "Type", None), ("len", "mutval", "N", None), ("arr", "mutval", "list T", None), ("value", "val", "T", None)],
+         known_state=[("array_set", "array_set")], rust_ret="()"),
+    dict(coq="gen_arrayvec_truncate", file="src/util.rs", impl=r"impl<T, const N: usize>\s+ArrayVec<T, N>", rust="truncate",
+         subst=[(r"self\.len", "cur_len")],
+         params=[("cur_len", "mutval", "N", None), ("len", "val", "N", None)], rust_ret="()"),
+    dict(coq="gen_arrayvec_deref", file="src/util.rs", impl=r"impl<T, const N: usize>\s+Deref for ArrayVec<T, N>", rust="deref", kind="plain",
+         subst=[(r"self\.arr", "arr"), (r"self\.len", "len")],
+         params=[("T", "val", "Type", None), ("len", "val", "N", None), ("arr", "val", "list T", None)], rust_ret="&[T]"),
     # src/ext.rs: HeaderIterExt::has (the test behind `Connection: close` and `Expect: 100-continue`): some field with that name has that value
     dict(coq="gen_headers_has", file="src/ext.rs", impl=None, rust="has", kind="plain", bytes_vars=["key", "value"],
          subst=[(r"self\s*\.filter", "headers.iter().filter")],
